@@ -250,6 +250,10 @@ def run(repo, rep):
     rep.clause("C16-i", "MemoryOnly passes join an NPU subgraph only if their operator is placed on the NPU")
     rep.clause("C16-j", "placement tests read the operator at hand: no loop variable is read after its loop has ended")
     rule_round7(repo, rep)
+    rep.clause("C16-k", "every SOFTMAX type the checkers admit is lowered (no demotion after placement)")
+    rep.clause("C16-l", "is_per_axis counts elements, so the per-axis constraint sees the reader's 1-D vectors")
+    rep.clause("C16-m", "both reader entry points (file and in-memory) run the TFLite semantic checker on TFLite models")
+    rule_round8(repo, rep)
     _so, _sem = repo.mod("tflite_supported_operators"), repo.mod("tflite_model_semantic")
     rule_round4(repo, rep, [("tflite_supported_operators", "TFLiteSupportedOperators", registrations(repo, _so, "TFLiteSupportedOperators")[1]),
                             ("tflite_model_semantic", "TFLiteSemantic", registrations(repo, _sem, "TFLiteSemantic")[1])])
@@ -794,3 +798,46 @@ def rule_round7(repo, rep):
     n2, _ = stale_loop_variable_lint(repo, rep, "C16-j", ["pass_packing", "extract_npu_subgraphs", "tflite_supported_operators", "tflite_model_semantic", "graph_optimiser_util"])
     if n2 < 20:
         raise AnalysisError(f"stale loop variable lint: {n2} loops")
+
+
+def rule_round8(repo, rep):
+    """(k) SoftMax.get_graph lowers every data type the checkers admit for SOFTMAX (uint8, int8, int16 with matching OFM); a type that
+    falls through to `run_on_npu = False` is demoted after placement and never appears in the report. (l) is_per_axis counts elements
+    (np.size): per-channel vectors arrive 1-D from the reader. (m) every reader path for TFLite models runs the TFLite semantic checker."""
+    sm = repo.mod("softmax")
+    f = sm.func("SoftMax.get_graph")
+    tests = [i.test for i in ast.walk(f) if isinstance(i, ast.If)]
+    covered = set()
+    for t in tests:
+        tt = str(norm(t))
+        if "dtype" in tt:
+            covered |= set(re.findall(r"DataType\.(u?int\d+)", tt))
+    rep.check({"uint8", "int8", "int16"} <= covered, "C16-k", "ethosu/vela/softmax.py:SoftMax.get_graph", "the lowering dispatch covers uint8, int8 and int16",
+              f"dispatched types {sorted(covered)}: a SOFTMAX of a missing type passes every listed constraint, is then demoted by `run_on_npu = False` and written back as a CPU operator")
+    tn = repo.mod("tensor")
+    g = tn.func("QuantizationParameters.is_per_axis")
+    calls = [call_name(c) for c in ast.walk(g) if isinstance(c, ast.Call)]
+    rep.check(any(c in ("np.size", "numpy.size", "len") for c in calls) and not any(c in ("np.ndim", "numpy.ndim") for c in calls), "C16-l", "ethosu/vela/tensor.py:QuantizationParameters.is_per_axis",
+              "per-axis means more than one element (np.size)", f"calls {sorted(set(c for c in calls if c))}: the reader's 1-D per-channel vectors have ndim 1: 'Per-axis quantization is only supported for ...' is no longer enforced "
+              "(FULLY_CONNECTED with per-channel weights goes to the NPU)")
+    mr = repo.mod("model_reader")
+    n = 0
+    for q, fn in mr.functions.items():
+        reads = [c for c in ast.walk(fn) if isinstance(c, ast.Call) and str(norm(c.func)).startswith("tflite_reader.read_tflite")]
+        for r_ in reads:
+            n += 1
+            # the semantic checker applied to the graph that this read produced (same branch / function)
+            par = mr.parents.get(r_)
+            blk = None
+            cur = par
+            while cur is not None and cur is not fn:
+                if isinstance(cur, ast.If):
+                    blk = cur.body if any(r_ is x for st in cur.body for x in ast.walk(st)) else cur.orelse
+                    break
+                cur = mr.parents.get(cur)
+            scope = ast.Module(body=blk if blk is not None else fn.body, type_ignores=[])
+            checks = [str(norm(c.func)) for c in ast.walk(scope) if isinstance(c, ast.Call) and str(norm(c.func)).endswith("semantic_checker")]
+            rep.check(checks == ["tflite_model_semantic.tflite_semantic_checker"], "C16-m", f"ethosu/vela/model_reader.py:{q}", "a TFLite model is passed through tflite_semantic_checker",
+                      f"semantic checkers applied after read_tflite: {checks}: on this path none of the TFLiteSemantic constraints the report lists is enforced (MAX_POOL int8 -> uint8 is accelerated through vela.convert_bytes)")
+    if n < 2:
+        raise AnalysisError(f"model_reader: {n} calls of tflite_reader.read_tflite")
